@@ -24,7 +24,7 @@ type c12Case struct {
 	Noise []string `json:"noise,omitempty"`
 	Pos   []int    `json:"pos,omitempty"`
 	CRLF  bool     `json:"crlf,omitempty"`
-	File  bool     `json:"file,omitempty"`              // file-backed lists
+	File  bool     `json:"file,omitempty"`             // file-backed lists
 	NoEOL bool     `json:"no_final_newline,omitempty"` // the list does not end with a line feed
 	Reqs  []Q      `json:"reqs"`
 }
@@ -321,7 +321,8 @@ func genC12Line(t *rapid.T) c12Case {
 	return c12Case{Line: b, Reqs: c12Reqs(t)}
 }
 
-var c12NoisePool = []string{"#@ merged from example.org", "#@todo ads", "#?ref=example", "#%20generated banner", "#$ price ads", "#@$x", "#@? google", "#@%", "#$?", "#@",
+var c12NoisePool = []string{"! Liste fran\xe7aise", "# caf\xe9 \xff", "!\xff\xfe", "||bad\xe9^$unknownmod", "! \xc3", // not valid UTF-8
+	"#@ merged from example.org", "#@todo ads", "#?ref=example", "#%20generated banner", "#$ price ads", "#@$x", "#@? google", "#@%", "#$?", "#@",
 	"", " ", "\t", "! comment", "!", "# comment", "#", "# ||example.org^", "! ||example.org^$important", "||bad^$unknownmod", "@@", "||x^$domain=",
 	"|", "*", "||", "example.org#$#body{}", "#@#.nodomain", "||a^$dnsrewrite=;;", "||a^$client=", "$$script", "!##.x", "# 0.0.0.0 example.org", "||example.org^$popup,elemhide",
 	"||example.org^$domain=example.com|~example.net,unknownmodifier=1,third-party,script", "@@||example.org^$elemhide,popup,domain=example.com|example.net|example.org|a.com"}
